@@ -23,7 +23,10 @@ RULE += (" " + 'In 20 % of the projects the shared library names an unloadable f
 RULE += (" " + 'In another 16 % of the projects the shared library fails at run time after making its bindings (division by zero, fail, index, select, cast, failing out).')
 
 KINDS = ["entry", "entry-imports-lib", "entry-imports-local-lib", "entry-imports-local-lib", "entry-imports-entry", "lib-no-out", "syntax-error", "type-error", "runtime-error",
-         "failing-out", "entry-yaml", "include-user"]
+         "failing-out", "entry-yaml", "include-user",
+         # files with assert statements (a build evaluates them like any other statement): holding, false, malformed, and in a
+         # library: whatever a build makes of them, it makes the same of them alone and in every batch
+         "entry-false-assert", "entry-true-assert", "entry-malformed-assert", "entry-imports-asserting-lib"]
 
 
 def gen_project(r):
@@ -37,6 +40,7 @@ def gen_project(r):
              "defaults.ucg": "let port = \"8080\";\n",
              "sub/defaults.ucg": "let port = 9090;\n",
              "lib/data.txt": "payload",
+             "lib/checks.ucg": "let lim = 3;\nassert {ok = lim > 5, desc = \"lim is large enough\"};\nlet after = lim + 1;\n",
              # a DIFFERENT library under the same relative name one directory down: same import string, other file, other types
              "sub/lib/shared.ucg": "let traceid = TRACE \"sub-shared\";\nlet val = \"seven\";\nlet mk = func (x, y) => [x, y];\nlet only_sub = true;\n",
              "sub/lib/data.txt": "other payload"}
@@ -108,6 +112,14 @@ def gen_project(r):
             text = "let f = func (x) => x.nope;\nlet v = f({a = %d});\nout json {v = v};\n" % i
         elif kind == "failing-out":
             text = "let v = %d;\nout toml {v = NULL};\n" % i
+        elif kind == "entry-false-assert":
+            text = "let v = %d;\nassert {ok = v < 0, desc = \"b%d: v is negative\"};\nout json {v = v, checked = true};\n" % (i, i)
+        elif kind == "entry-true-assert":
+            text = "let v = %d;\nassert {ok = v >= 0, desc = \"b%d: v is not negative\"};\nout json {v = v, checked = true};\n" % (i, i)
+        elif kind == "entry-malformed-assert":
+            text = "let v = %d;\nlet mk = func (x) => {okay = x};\nassert mk(v);\nout json {v = v, checked = true};\n" % i
+        elif kind == "entry-imports-asserting-lib":
+            text = "let c = import \"%slib/checks.ucg\";\nout json {v = c.after + %d};\n" % (up, i)
         elif kind == "include-user":
             text = "let s = include str \"%slib/data.txt\";\nout json {s = s, n = %d};\n" % (up, i)
         else:
